@@ -148,13 +148,10 @@ fn scenario(cfg: &Cfg) {
         assert!(seen.insert((*id, *serial, *cr)), "duplicate identifier <{}.{}> handed out (start id {}, serial {})", id, serial, start_id, start_serial);
     }
     let mut rseen = HashSet::new();
-    let mut words = HashSet::new();
     for (ids, cr) in &all_refs {
         assert_eq!(*cr, 1, "reference carries creation {}", cr);
+        // references are distinct as word vectors (how the words are laid out is the node's business)
         assert!(rseen.insert(ids.clone()), "duplicate reference {:?}", ids);
-        for w in ids {
-            assert!(words.insert(*w), "reference word {} used twice", w);
-        }
     }
     // bookkeeping for evidence (plain std mutexes: never held across a scheduling point)
     let ord = order.lock().unwrap().clone();
@@ -176,6 +173,21 @@ fn scenario(cfg: &Cfg) {
     let mut s = SAMPLES.lock().unwrap();
     if s.len() < 3 && interleaved {
         s.push(json!({"config": cfg.name, "start_id": start_id, "start_serial": start_serial, "completion_order_by_thread": ord, "pids": all_pids.iter().map(|p| format!("<{}.{}>", p.0, p.1)).collect::<Vec<_>>()}));
+    }
+}
+
+/// Single thread: a long history of references (and interleaved failing monitors) stays distinct.
+fn sequential_refs(n: usize) {
+    let node = Node::new("n@h", "cookie");
+    let mut seen: HashSet<Vec<u32>> = HashSet::with_capacity(n);
+    let from = erltf::types::ExternalPid::new(Atom::new("n@h"), 1, 0, 1);
+    let to = erltf::types::ExternalPid::new(Atom::new("elsewhere@h"), 1, 0, 1);
+    for i in 0..n {
+        if i % 1000 == 7 {
+            let _ = shuttle::future::block_on(node.monitor(&from, &to));
+        }
+        let r = node.make_reference();
+        assert!(seen.insert(r.ids.clone()), "reference #{} {:?} is identical to an earlier one in a sequential history", i, r.ids);
     }
 }
 
@@ -253,7 +265,11 @@ fn main() {
                     let mut sc = Config::new();
                     sc.max_steps = MaxSteps::None;
                     sc.failure_persistence = FailurePersistence::None;
-                    Runner::new(DfsScheduler::new(None, false), sc).run(move || sequential(c.start_id, c.start_serial, c.calls));
+                    if c.name == "sequential-refs" {
+                        Runner::new(DfsScheduler::new(None, false), sc).run(move || sequential_refs(c.calls));
+                    } else {
+                        Runner::new(DfsScheduler::new(None, false), sc).run(move || sequential(c.start_id, c.start_serial, c.calls));
+                    }
                 } else {
                     let c = cfg.clone();
                     shuttle::replay_from_file(move || scenario(&c), &sched_file);
@@ -376,6 +392,23 @@ fn main() {
         }
     }
 
+    let mut seq_refs = 0usize;
+    if failure.is_none() && seq_failure.is_none() {
+        let n = if thorough { 2_000_000 } else { 400_000 };
+        let dir2 = dir.clone();
+        let r = std::panic::catch_unwind(move || {
+            let mut c = shuttle_config(&dir2);
+            c.max_steps = MaxSteps::None;
+            Runner::new(DfsScheduler::new(None, false), c).run(move || sequential_refs(n));
+        });
+        if let Err(e) = r {
+            let msg = e.downcast_ref::<String>().cloned().unwrap_or_else(|| "panic".into());
+            seq_failure = Some((mk("sequential-refs", 1, n, 0, 0, true, false), msg));
+        } else {
+            seq_refs = n;
+        }
+    }
+
     let mut violations = 0;
     if let Some((cfg, msg, kind)) = &failure {
         let sched = newest_schedule(&dir, &known).unwrap_or_default();
@@ -417,6 +450,7 @@ fn main() {
             "dfs_configurations_exhausted": dfs_complete,
             "executions_that_crossed_the_wrap_point": *WRAPS_SEEN.lock().unwrap(),
             "sequential_allocations_checked": seq_allocs,
+            "sequential_references_checked": seq_refs,
             "runs_per_hour": if wall > 0.0 { (total_iters as f64 / wall * 3600.0) as u64 } else { 0 },
             "components_real": ["edp_client::pid_allocator::PidAllocator::allocate", "edp_node::Node::make_reference", "edp_node::Node::new"],
             "components_stubbed": ["std::sync::Mutex and atomics replaced by shuttle's (scheduling points at every lock / atomic step)"],
